@@ -36,7 +36,10 @@ class Cfg(object):
         self.max_wps = 4
         self.max_facs_per_wp = 3
         self.inputs = True  # conveyor links between workplaces
-        self.nested = False  # profile N (component forest, assembly form)
+        # profile N: False | "assembly" (depth-1 forest, every task of a parent component FS-depends
+        # on every task of its children: the shape of the suite's nested fixtures) | "free"
+        # (arbitrary forest, arbitrary task assignment; only used without workplaces, D-PLC*)
+        self.nested = False
         self.chain_components = False  # tasks of one component form an FS chain (C13)
         self.auto_with_component = True
         self.tie_rich = 0  # 1 in tie_rich specs draws work and skills from a 2-value pool
@@ -195,11 +198,19 @@ def model_spec(draw, cfg):
 
     # ---- components
     comps = []
+    roots = []
     for i in range(n_comps):
         c = {"space": draw(st.sampled_from(SPACE_POOL)), "parent": None}
         if cfg.nested and i > 0 and draw(st.booleans()):
-            c["parent"] = draw(st.integers(0, i - 1))
+            if cfg.nested == "free":
+                c["parent"] = draw(st.integers(0, i - 1))
+            else:  # "assembly": depth 1 only, parents are roots
+                c["parent"] = draw(st.sampled_from(roots))
+        if c["parent"] is None:
+            roots.append(i)
         comps.append(c)
+    if cfg.nested and cfg.nested != "free":
+        assembly_form(tasks, deps, comps)
 
     # ---- teams and workers
     bool3 = st.sampled_from([True, True, True, False])
@@ -334,3 +345,29 @@ def chain_components(spec):
                 added += 1
                 reach = fs_reach(spec)
     return added
+
+
+def assembly_form(tasks, deps, comps):
+    """Profile N repair: child-component tasks precede (by index and by FS path) parent-component tasks.
+
+    The component assignment is permuted among the tasks that have one so that every task of a child
+    component has a smaller index than every task of its parent; then the missing FS edges are added.
+    """
+    idxs = [i for i, t in enumerate(tasks) if t.get("comp") is not None]
+    vals = sorted((tasks[i]["comp"] for i in idxs), key=lambda c: (comps[c]["parent"] is None, c))
+    for i, c in zip(idxs, vals):
+        tasks[i]["comp"] = c
+    spec = {"tasks": tasks, "deps": deps}
+    by_comp = {}
+    for i, t in enumerate(tasks):
+        if t.get("comp") is not None:
+            by_comp.setdefault(t["comp"], []).append(i)
+    reach = fs_reach(spec)
+    for c, cs in enumerate(comps):
+        if cs["parent"] is None:
+            continue
+        for a in by_comp.get(c, []):
+            for b in by_comp.get(cs["parent"], []):
+                if a < b and b not in reach[a]:
+                    deps.append([a, b, 0])
+                    reach = fs_reach(spec)
